@@ -6,6 +6,8 @@ import D2V.Model.Path
     * `d2ir/compile.go: compiler.compileLink`   a `link:` value that starts with an unquoted `layers|scenarios|steps`
       (any letter case) or `_` is made absolute: the scope (IDA of the map the link is written in) is chopped back to
       its board, every leading `_` pops one board (two path elements), and the rest of the link is appended
+    * `d2ir/compile.go: compiler.extendLinks`   links stored by the compilation of an imported file are rebased onto
+      the importing field: `IDA(importing field) ++ link[1:]`, leading `_` elements popping boards of the importing path
     * `d2compiler/compile.go: validateBoardLinks / hasBoard`   a non-remote link is kept only when it starts with
       `root`, `hasBoard` finds it in the board tree, and it is not the path of the object's own board
     * `d2cli/main.go: resolveLinks / relink`    (in D2V.Model.Path: `linkMapB`, `relinkOne`) a link equal to a key of
@@ -69,6 +71,20 @@ def compileLink (scope link : List Seg) : Option (List Seg) :=
       let (sc, lk) := popUnderscores link.length sc link
       let sc := if sc.isEmpty then [rootSeg] else sc
       some (sc ++ lk)
+
+/-- `extendLinks` for one link of an imported map: `importIDA` is the IDA of the importing field, `link` the value the
+    imported file's own compilation stored (its first element — the imported file's `root` — is replaced by the
+    importing path; every leading `_` of the rest pops one board off the importing path while it has one) -/
+def extendTail : List Seg → List Seg → List Seg
+  | imp, x :: rest =>
+    if isUnderscore x && decide (2 ≤ imp.length) then extendTail (imp.take (imp.length - 2)) rest
+    else imp ++ (x :: rest)
+  | imp, [] => imp
+
+def extendLink (importIDA link : List Seg) : List Seg :=
+  match link with
+  | [] => []
+  | _ :: tail => extendTail importIDA tail
 
 /-! ### validation against the board tree -/
 
